@@ -376,5 +376,337 @@ Proof.
     injection E as E. split; [exact (AddA stA stA1 vA HsA S1 EA)|split; [exact (AddB stB stB1 vB HsB S2 EB)|]].
     apply Forall2_app; [exact Hsols|constructor; [exact E|constructor]].
 Qed.
+
+Lemma cls_options_sim stk d nli ws lc fcA fcB sc : view_sim fcA fcB ->
+  cls_options (w_bbb WA) lvsA stk d nli ws lc fcA sc = cls_options (w_bbb WB) lvsB stk d nli ws lc fcB sc.
+Proof.
+  intros (_ & _ & _ & _ & Hrecs). unfold cls_options. rewrite Hbbb.
+  assert (E1 : first_inv_must_break fcA = first_inv_must_break fcB).
+  { unfold first_inv_must_break. destruct Hrecs as [|a b ra rb (_ & _ & _ & _ & Hinv & _) _]; [reflexivity|]. rewrite Hinv. reflexivity. }
+  assert (E2 : first_tok_type fcA = first_tok_type fcB).
+  { unfold first_tok_type. destruct Hrecs as [|a b ra rb (_ & Hty & _) _]; [reflexivity|]. exact Hty. }
+  assert (E3 : forall l, existsb (fun k => match nth_error lvsA k with Some lv => lv_type lv IS LLT_CaseHeader | None => false end) l
+                       = existsb (fun k => match nth_error lvsB k with Some lv => lv_type lv IS LLT_CaseHeader | None => false end) l).
+  { induction l as [|k r IHl]; [reflexivity|]. cbn [existsb]. rewrite IHl. f_equal.
+    pose proof (Forall2_nth_error _ _ _ Hviews k) as Hv. destruct (nth_error lvsA k), (nth_error lvsB k); try contradiction; [|reflexivity].
+    destruct Hv as (_ & Hty & _). rewrite Hty. reflexivity. }
+  rewrite E1, E2, E3. reflexivity.
+Qed.
+
+Lemma cls_sim rA rB gtoks tok_li ws decsA decsB d nli tllA tllB pc dA dB stA stB :
+  rec_sim rA rB -> In rA (lv_recs lvA) -> In rB (lv_recs lvB) -> map erase_dec decsA = map erase_dec decsB ->
+  (length lvsA - i <= dA)%nat -> (length lvsA - i <= dB)%nat -> soundA stA -> soundB stB ->
+  soundA (fst (child_lines_solutions WA lvsA (solveA dA) stA i rA gtoks tok_li ws decsA d nli tllA pc))
+  /\ soundB (fst (child_lines_solutions WB lvsB (solveB dB) stB i rB gtoks tok_li ws decsB d nli tllB pc))
+  /\ Forall2 ksim (snd (child_lines_solutions WA lvsA (solveA dA) stA i rA gtoks tok_li ws decsA d nli tllA pc))
+                   (snd (child_lines_solutions WB lvsB (solveB dB) stB i rB gtoks tok_li ws decsB d nli tllB pc)).
+Proof.
+  intros (Hg & _ & _ & _ & _ & Hstk & Hkids) HrA HrB Hdecs HdA HdB HsA HsB. rewrite !cls_unfold. rewrite Hkids, Hstk, Hg.
+  destruct (tr_kids rB) as [lc|] eqn:EkB; [|cbn; split; [assumption|split; [assumption|constructor; [reflexivity|constructor]]]].
+  rewrite (find_continuations_erase _ _ decsA decsB Hdecs).
+  assert (Hfc : match (match lch_lines lc with k :: _ => nth_error lvsA k | [] => None end), (match lch_lines lc with k :: _ => nth_error lvsB k | [] => None end) with
+                | Some a, Some b => view_sim a b | None, None => True | _, _ => False end).
+  { destruct (lch_lines lc) as [|k r]; [exact I|]. exact (Forall2_nth_error _ _ _ Hviews k). }
+  destruct (match lch_lines lc with k :: _ => nth_error lvsA k | [] => None end) as [fcA|];
+  destruct (match lch_lines lc with k :: _ => nth_error lvsB k | [] => None end) as [fcB|]; try contradiction;
+    [|cbn; split; [assumption|split; [assumption|constructor; [reflexivity|constructor]]]].
+  rewrite (cls_options_sim (tr_stk rB) d nli ws lc fcA fcB _ Hfc).
+  generalize (cls_options (w_bbb WB) lvsB (tr_stk rB) d nli ws lc fcB
+               (match find_continuations (lch_parent_tok lc) (rev (firstn (N.to_nat tok_li) gtoks)) decsB with Some c => c | None => pc end)).
+  intros options.
+  assert (Hgen : forall accA accB, soundA (fst accA) -> soundB (fst accB) -> Forall2 ksim (snd accA) (snd accB) ->
+            soundA (fst (fold_left (cls_step lvsA (solveA dA) i (tr_gidx rB) tllA (lch_lines lc)) options accA))
+            /\ soundB (fst (fold_left (cls_step lvsB (solveB dB) i (tr_gidx rB) tllB (lch_lines lc)) options accB))
+            /\ Forall2 ksim (snd (fold_left (cls_step lvsA (solveA dA) i (tr_gidx rB) tllA (lch_lines lc)) options accA))
+                             (snd (fold_left (cls_step lvsB (solveB dB) i (tr_gidx rB) tllB (lch_lines lc)) options accB))).
+  { induction options as [|opt options IHo]; intros accA accB H1 H2 H3; cbn [fold_left]; [split; [assumption|split; assumption]|].
+    destruct (cls_step_sim (tr_gidx rB) lc tllA tllB dA dB rA rB HrA HrB Hg eq_refl ltac:(congruence) EkB HdA HdB opt accA accB H1 H2 H3) as (S1 & S2 & S3).
+    apply IHo; assumption. }
+  apply Hgen; [exact HsA|exact HsB|constructor].
+Qed.
+
+(* ------------------------------------------------------------------ *)
+(* nodes *)
+Definition node_sim (a b : node) : Prop :=
+  n_ws a = n_ws b /\ map erase_dec (n_decs a) = map erase_dec (n_decs b) /\ n_nli a = n_nli b /\ Forall2 rec_sim (n_rest a) (n_rest b)
+  /\ n_data a = n_data b /\ n_pen a = n_pen b /\ incl (n_rest a) (lv_recs lvA) /\ incl (n_rest b) (lv_recs lvB).
+
+Lemma node_sim_ord a a' b b' : node_sim a a' -> node_sim b b' -> node_gt a b = node_gt a' b'.
+Proof. intros (_ & _ & H1 & _ & _ & H2 & _) (_ & _ & H3 & _ & _ & H4 & _). unfold node_gt. rewrite H1, H2, H3, H4. reflexivity. Qed.
+
+Hypothesis HidxA : lv_idx lvA = i.
+Hypothesis HidxB : lv_idx lvB = i.
+Hypothesis Hlv : view_sim lvA lvB.
+Variables dA dB : nat.
+Hypothesis HdA : (length lvsA - i <= dA)%nat.
+Hypothesis HdB : (length lvsA - i <= dB)%nat.
+
+Notation potA := (potential_inf WA lvsA (solveA dA) lvA).
+Notation potB := (potential_inf WB lvsB (solveB dB) lvB).
+
+Lemma potential_inf_sim stA stB a b is_break : soundA stA -> soundB stB -> node_sim a b ->
+  soundA (fst (potA stA a is_break)) /\ soundB (fst (potB stB b is_break)) /\ Forall2 node_sim (snd (potA stA a is_break)) (snd (potB stB b is_break)).
+Proof.
+  intros HsA HsB (Hws & Hdecs & Hnli & Hrest & Hdata & Hpen & HinA & HinB). unfold potential_inf.
+  destruct Hrest as [|rA rB restA restB Hr Hrest']; [cbn; split; [assumption|split; [assumption|constructor]]|].
+  pose proof Hr as (Hg & Hty & Hwin & Hfp & Hinv & Hstk & Hkids).
+  destruct Hlv as (_ & Hlt & _ & Hgt & _).
+  rewrite HidxA, HidxB, Hlt, Hwin, Hty, Hstk, Hdata, Hnli, Hws, Hgt, Hpen.
+  set (d := update_contexts (lv_type lvB) (tr_win rB) (tr_ty rB) (tr_stk rB) (n_nli b) is_break (n_data b)).
+  set (cc := get_continuation_count (tr_stk rB) d (n_nli b)).
+  set (dec := if is_break then WBreak cc else WContinue).
+  assert (HpenEq : decision_penalty_inf lvA rA (n_nli b) is_break = decision_penalty_inf lvB rB (n_nli b) is_break)
+    by (unfold decision_penalty_inf; rewrite Hlt, Hfp, Hstk; reflexivity).
+  rewrite HpenEq.
+  destruct (cls_sim rA rB (lv_gtoks lvB) (n_nli b) (n_ws b) (n_decs a) (n_decs b) d (n_nli b)
+              (token_line_length' WA (n_ws b) (n_decs a) dec rA) (token_line_length' WB (n_ws b) (n_decs b) dec rB) cc dA dB stA stB
+              Hr (HinA rA (or_introl eq_refl)) (HinB rB (or_introl eq_refl)) Hdecs HdA HdB HsA HsB) as (S1 & S2 & S3).
+  destruct (child_lines_solutions WA lvsA (solveA dA) stA i rA _ _ _ _ _ _ _ _) as [stA1 solsA].
+  destruct (child_lines_solutions WB lvsB (solveB dB) stB i rB _ _ _ _ _ _ _ _) as [stB1 solsB].
+  cbn [fst snd] in *. split; [exact S1|split; [exact S2|]].
+  induction S3 as [|kA kB ra rb Hk Hr' IHs]; cbn [map]; constructor; [|exact IHs].
+  unfold node_sim. cbn [n_ws n_decs n_nli n_rest n_data n_pen map].
+  split; [reflexivity|]. split; [rewrite Hdecs; unfold erase_dec at 1 3; cbn [td_dec td_kids]; rewrite Hk; reflexivity|].
+  split; [reflexivity|]. split; [exact Hrest'|]. split; [apply update_from_children_erase; exact Hk|].
+  split; [apply erase_kids_pen; exact Hk|]. split; intros x Hx; [apply HinA|apply HinB]; right; exact Hx.
+Qed.
+
+Notation bothA := (both_inf WA lvsA (solveA dA) lvA).
+Notation bothB := (both_inf WB lvsB (solveB dB) lvB).
+
+Lemma both_inf_sim stA stB a b : soundA stA -> soundB stB -> node_sim a b ->
+  soundA (fst (bothA stA a)) /\ soundB (fst (bothB stB b)) /\ Forall2 node_sim (snd (bothA stA a)) (snd (bothB stB b)).
+Proof.
+  intros HsA HsB Hn. unfold both_inf.
+  destruct (potential_inf_sim stA stB a b true HsA HsB Hn) as (A1 & A2 & A3).
+  destruct (potA stA a true) as [stA1 la]. destruct (potB stB b true) as [stB1 lb]. cbn [fst snd] in *.
+  destruct (potential_inf_sim stA1 stB1 a b false A1 A2 Hn) as (B1 & B2 & B3).
+  destruct (potA stA1 a false) as [stA2 la']. destruct (potB stB1 b false) as [stB2 lb']. cbn [fst snd] in *.
+  split; [exact B1|split; [exact B2|apply Forall2_app; assumption]].
+Qed.
+
+Definition onode_sim (x y : option node) : Prop := match x, y with Some a, Some b => node_sim a b | None, None => True | _, _ => False end.
+Definition res_sim (x y : walk_res) : Prop :=
+  match x, y with
+  | W_push a, W_push b => node_sim a b
+  | W_extend la, W_extend lb => Forall2 node_sim la lb
+  | W_dead, W_dead => True
+  | W_fuel, W_fuel => True
+  | _, _ => False
+  end.
+Definition step_sim (x y : wstep) : Prop :=
+  match x, y with
+  | WS_stop ra, WS_stop rb => res_sim ra rb
+  | WS_forward a ia, WS_forward b ib => node_sim a b /\ onode_sim ia ib
+  | WS_restart a, WS_restart b => node_sim a b
+  | _, _ => False
+  end.
+
+Lemma finish_sim la lb : Forall2 node_sim la lb -> step_sim (finish la) (finish lb).
+Proof.
+  intros H. unfold finish. destruct H as [|a b ra rb Hab Hr]; [exact (Forall2_nil _)|].
+  destruct Hr as [|a2 b2 ra2 rb2 Hab2 Hr2]; [exact Hab|]. cbn. constructor; [exact Hab|constructor; assumption].
+Qed.
+
+Lemma kept_sim li la lb : Forall2 node_sim la lb -> forall best ka kb, Forall2 node_sim ka kb ->
+  let F := fun (acc : list N * list node) (n : node) =>
+             if n_pen n <? best_at (fst acc) li then (upd_at li (fun _ => n_pen n) (fst acc), snd acc ++ [n]) else acc in
+  fst (fold_left F la (best, ka)) = fst (fold_left F lb (best, kb)) /\ Forall2 node_sim (snd (fold_left F la (best, ka))) (snd (fold_left F lb (best, kb))).
+Proof.
+  induction 1 as [|a b ra rb Hab Hr IHl]; intros best ka kb Hk; cbn [fold_left fst snd]; [split; [reflexivity|exact Hk]|].
+  pose proof Hab as (H1 & H2 & H3 & H4 & H5 & Hpen & H7). rewrite Hpen. destruct (n_pen b <? best_at best li).
+  - apply IHl. apply Forall2_app; [exact Hk|constructor; [exact Hab|constructor]].
+  - apply IHl. exact Hk.
+Qed.
+
+Notation wsA := (walk_step_inf WA lvsA (solveA dA) lvA).
+Notation wsB := (walk_step_inf WB lvsB (solveB dB) lvB).
+
+Lemma walk_step_inf_sim a b ia ib best stA stB : soundA stA -> soundB stB -> node_sim a b -> onode_sim ia ib ->
+  soundA (snd (wsA a ia best stA)) /\ soundB (snd (wsB b ib best stB))
+  /\ snd (fst (wsA a ia best stA)) = snd (fst (wsB b ib best stB))
+  /\ step_sim (fst (fst (wsA a ia best stA))) (fst (fst (wsB b ib best stB))).
+Proof.
+  intros HsA HsB Hn Hi. pose proof Hn as (Hws & Hdecs & Hnli & Hrest & Hdata & Hpen & HinA & HinB). unfold walk_step_inf.
+  destruct (n_rest a) as [|rA restA] eqn:ErA; destruct (n_rest b) as [|rB restB] eqn:ErB; try (inversion Hrest; fail).
+  { cbn. split; [assumption|split; [assumption|split; [reflexivity|exact Hn]]]. }
+  assert (Hr : rec_sim rA rB) by (inversion Hrest; assumption).
+  destruct Hr as (Hg & Hty & Hwin & Hfp & Hinv & Hstk & Hkids). destruct Hlv as (_ & Hlt & _).
+  rewrite Hlt, Hwin, Hty, Hinv, Hstk, Hdata, Hnli.
+  assert (Hafter : forall la lb ia' ib' sa sb, soundA sa -> soundB sb -> Forall2 node_sim la lb -> onode_sim ia' ib' ->
+            let xa := match la with
+                      | [n] => (WS_forward n ia', best, sa)
+                      | _ => match ia' with
+                             | Some ind => let (st, more) := bothA sa ind in (finish (la ++ more), best, st)
+                             | None => (finish la, best, sa)
+                             end
+                      end in
+            let xb := match lb with
+                      | [n] => (WS_forward n ib', best, sb)
+                      | _ => match ib' with
+                             | Some ind => let (st, more) := bothB sb ind in (finish (lb ++ more), best, st)
+                             | None => (finish lb, best, sb)
+                             end
+                      end in
+            soundA (snd xa) /\ soundB (snd xb) /\ snd (fst xa) = snd (fst xb) /\ step_sim (fst (fst xa)) (fst (fst xb))).
+  { intros la lb ia' ib' sa sb Ha Hb Hl Hi'.
+    assert (Hgen : let xa := match ia' with
+                             | Some ind => let (st, more) := bothA sa ind in (finish (la ++ more), best, st)
+                             | None => (finish la, best, sa)
+                             end in
+                   let xb := match ib' with
+                             | Some ind => let (st, more) := bothB sb ind in (finish (lb ++ more), best, st)
+                             | None => (finish lb, best, sb)
+                             end in
+                   soundA (snd xa) /\ soundB (snd xb) /\ snd (fst xa) = snd (fst xb) /\ step_sim (fst (fst xa)) (fst (fst xb))).
+    { destruct ia' as [inda|]; destruct ib' as [indb|]; try contradiction.
+      - destruct (both_inf_sim sa sb inda indb Ha Hb Hi') as (B1 & B2 & B3).
+        destruct (bothA sa inda) as [sa' ma]. destruct (bothB sb indb) as [sb' mb]. cbn [fst snd] in *.
+        split; [exact B1|split; [exact B2|split; [reflexivity|apply finish_sim; apply Forall2_app; assumption]]].
+      - cbn [fst snd]. split; [exact Ha|split; [exact Hb|split; [reflexivity|apply finish_sim; exact Hl]]]. }
+    destruct Hl as [|x y ra rb Hxy Hr']; [exact Hgen|]. destruct Hr' as [|x2 y2 ra2 rb2 Hxy2 Hr2]; [|exact Hgen].
+    cbn [fst snd]. split; [exact Ha|split; [exact Hb|split; [reflexivity|split; [exact Hxy|exact Hi']]]]. }
+  destruct (get_formatting_requirement (lv_type lvB) (tr_win rB) (tr_ty rB) (tr_inv rB) (tr_stk rB) (n_data b) (n_nli b)).
+  - (* Indifferent *)
+    destruct (potential_inf_sim stA stB a b false HsA HsB Hn) as (P1 & P2 & P3).
+    destruct (potA stA a false) as [sa la]. destruct (potB stB b false) as [sb lb]. cbn [fst snd] in *.
+    apply Hafter; try assumption. destruct ia as [x|]; destruct ib as [y|]; try contradiction; [exact Hi|exact Hn].
+  - (* Invalid *)
+    destruct ia as [inda|]; destruct ib as [indb|]; try contradiction; [|cbn; split; [assumption|split; [assumption|split; [reflexivity|exact I]]]].
+    destruct (both_inf_sim stA stB inda indb HsA HsB Hi) as (B1 & B2 & B3).
+    destruct (bothA stA inda) as [sa la]. destruct (bothB stB indb) as [sb lb]. cbn [fst snd] in *.
+    split; [exact B1|split; [exact B2|split; [reflexivity|apply finish_sim; exact B3]]].
+  - (* MustBreak *)
+    destruct (potential_inf_sim stA stB a b true HsA HsB Hn) as (P1 & P2 & P3).
+    destruct (potA stA a true) as [sa la]. destruct (potB stB b true) as [sb lb]. cbn [fst snd] in *.
+    destruct (kept_sim (N.to_nat (n_nli b)) la lb P3 best [] [] (Forall2_nil _)) as (K1 & K2).
+    destruct (fold_left _ la (best, [])) as [bestA keptA]. destruct (fold_left _ lb (best, [])) as [bestB keptB]. cbn [fst snd] in *.
+    split; [exact P1|split; [exact P2|split; [exact K1|apply finish_sim; exact K2]]].
+  - (* MustNotBreak *)
+    destruct (potential_inf_sim stA stB a b false HsA HsB Hn) as (P1 & P2 & P3).
+    destruct (potA stA a false) as [sa la]. destruct (potB stB b false) as [sb lb]. cbn [fst snd] in *.
+    apply Hafter; assumption.
+Qed.
+
+Notation walkA := (walk_inf WA lvsA (solveA dA) lvA).
+Notation walkB := (walk_inf WB lvsB (solveB dB) lvB).
+
+Lemma node_sim_len a b : node_sim a b -> length (n_rest a) = length (n_rest b).
+Proof. intros (_ & _ & _ & H & _). exact (Forall2_len _ _ _ H). Qed.
+
+Lemma walk_inf_sim : forall f1 f2 a b ia ib best stA stB, soundA stA -> soundB stB -> node_sim a b -> onode_sim ia ib ->
+  soundA (snd (walkA f1 f2 a ia best stA)) /\ soundB (snd (walkB f1 f2 b ib best stB))
+  /\ snd (fst (walkA f1 f2 a ia best stA)) = snd (fst (walkB f1 f2 b ib best stB))
+  /\ res_sim (fst (fst (walkA f1 f2 a ia best stA))) (fst (fst (walkB f1 f2 b ib best stB))).
+Proof.
+  induction f1 as [|f1 IH1]; induction f2 as [|f2 IH2]; intros a b ia ib best stA stB HsA HsB Hn Hi;
+    try (cbn; split; [assumption|split; [assumption|split; [reflexivity|exact I]]]).
+  - cbn [walk_inf]. destruct (walk_step_inf_sim a b ia ib best stA stB HsA HsB Hn Hi) as (S1 & S2 & S3 & S4).
+    destruct (wsA a ia best stA) as [[sa ba] sta]. destruct (wsB b ib best stB) as [[sb bb] stb]. cbn [fst snd] in *. subst bb.
+    destruct sa as [ra|na ia'|na]; destruct sb as [rb|nb ib'|nb]; try contradiction; cbn [fst snd].
+    + split; [assumption|split; [assumption|split; [reflexivity|exact S4]]].
+    + destruct S4 as (Hn' & Hi'). apply IH2; assumption.
+    + split; [assumption|split; [assumption|split; [reflexivity|exact I]]].
+  - cbn [walk_inf]. destruct (walk_step_inf_sim a b ia ib best stA stB HsA HsB Hn Hi) as (S1 & S2 & S3 & S4).
+    destruct (wsA a ia best stA) as [[sa ba] sta]. destruct (wsB b ib best stB) as [[sb bb] stb]. cbn [fst snd] in *. subst bb.
+    destruct sa as [ra|na ia'|na]; destruct sb as [rb|nb ib'|nb]; try contradiction; cbn [fst snd].
+    + split; [assumption|split; [assumption|split; [reflexivity|exact S4]]].
+    + destruct S4 as (Hn' & Hi'). apply IH2; assumption.
+    + rewrite (node_sim_len na nb S4). apply IH1; [assumption|assumption|exact S4|exact I].
+Qed.
+
+Definition sres_sim (x y : sres) : Prop :=
+  match x, y with
+  | SR_ok a, SR_ok b => erase a = erase b
+  | SR_none, SR_none | SR_limit, SR_limit | SR_fuel, SR_fuel => True
+  | _, _ => False
+  end.
+
+Lemma solution_of_node_sim a b : node_sim a b -> erase (solution_of_node a) = erase (solution_of_node b).
+Proof.
+  intros (Hws & Hdecs & _ & _ & _ & Hpen & _). unfold solution_of_node. rewrite !erase_eq, !map_rev, Hdecs, Hws, Hpen. reflexivity.
+Qed.
+
+Notation mlA := (main_loop_inf WA lvsA (solveA dA) lvA).
+Notation mlB := (main_loop_inf WB lvsB (solveB dB) lvB).
+
+Lemma main_loop_inf_sim : forall fuel hA hB iter best stA stB, soundA stA -> soundB stB -> heap_rel node_sim hA hB ->
+  soundA (fst (mlA fuel hA iter best stA)) /\ soundB (fst (mlB fuel hB iter best stB))
+  /\ sres_sim (snd (mlA fuel hA iter best stA)) (snd (mlB fuel hB iter best stB)).
+Proof.
+  induction fuel as [|f IHf]; intros hA hB iter best stA stB HsA HsB Hh; cbn [main_loop_inf].
+  - cbn [fst snd]. split; [eapply sound_same_cache; [|exact HsA]; reflexivity|split; [eapply sound_same_cache; [|exact HsB]; reflexivity|exact I]].
+  - pose proof (heap_pop_rel node_sim node_sim_ord hA hB Hh) as Hp.
+    destruct (heap_pop hA) as [[a hA']|]; destruct (heap_pop hB) as [[b hB']|]; cbn [pop_rel] in Hp; try contradiction.
+    2:{ cbn [fst snd]. split; [eapply sound_same_cache; [|exact HsA]; reflexivity|split; [eapply sound_same_cache; [|exact HsB]; reflexivity|exact I]]. }
+    destruct Hp as (Hn & Hh'). rewrite Hiter.
+    destruct (w_iter WB <? iter).
+    { cbn [fst snd]. split; [eapply sound_same_cache; [|exact HsA]; reflexivity|split; [eapply sound_same_cache; [|exact HsB]; reflexivity|exact I]]. }
+    pose proof Hn as (Hws & Hdecs & Hnli & Hrest & Hdata & Hpen & HinA & HinB).
+    destruct (n_rest a) as [|rA restA] eqn:ErA; destruct (n_rest b) as [|rB restB] eqn:ErB; try (inversion Hrest; fail).
+    { cbn [fst snd]. split; [eapply sound_same_cache; [|exact HsA]; reflexivity|split; [eapply sound_same_cache; [|exact HsB]; reflexivity|]].
+      apply solution_of_node_sim. exact Hn. }
+    rewrite Hnli, Hpen. destruct (best_at best (N.to_nat (N.pred (n_nli b))) <? n_pen b); [apply IHf; assumption|].
+    assert (Hl : length (rA :: restA) = length (rB :: restB)) by (rewrite <- ErA, <- ErB; apply node_sim_len; exact Hn).
+    rewrite Hl.
+    destruct (walk_inf_sim (S (length (rB :: restB))) (S (length (rB :: restB))) a b None None best stA stB HsA HsB Hn I) as (W1 & W2 & W3 & W4).
+    destruct (walkA (S (length (rB :: restB))) (S (length (rB :: restB))) a None best stA) as [[ra ba] sa].
+    destruct (walkB (S (length (rB :: restB))) (S (length (rB :: restB))) b None best stB) as [[rb bb] sb].
+    cbn [fst snd] in *. subst bb.
+    destruct ra as [na|la| |]; destruct rb as [nb|lb| |]; try contradiction.
+    + apply IHf; try assumption. apply heap_push_rel; [exact node_sim_ord|exact Hh'|exact W4].
+    + apply IHf; try assumption. apply heap_extend_rel; [exact node_sim_ord|exact W4|exact Hh'].
+    + apply IHf; assumption.
+    + cbn [fst snd]. split; [eapply sound_same_cache; [|exact W1]; reflexivity|split; [eapply sound_same_cache; [|exact W2]; reflexivity|exact I]].
+Qed.
+
+Lemma fos_inf_sim stA stB ws fdA fdB : soundA stA -> soundB stB -> fd_sim fdA fdB ->
+  soundA (fst (find_optimal_solution_inf WA lvsA fm (solveA dA) lvA stA ws fdA))
+  /\ soundB (fst (find_optimal_solution_inf WB lvsB fm (solveB dB) lvB stB ws fdB))
+  /\ sres_sim (snd (find_optimal_solution_inf WA lvsA fm (solveA dA) lvA stA ws fdA))
+               (snd (find_optimal_solution_inf WB lvsB fm (solveB dB) lvB stB ws fdB)).
+Proof.
+  intros HsA HsB Hfd. unfold find_optimal_solution_inf. pose proof Hlv as (_ & Hlt & _ & _ & Hrecs).
+  destruct (lv_recs lvA) as [|rA restA] eqn:ErA; destruct (lv_recs lvB) as [|rB restB] eqn:ErB; try (inversion Hrecs; fail).
+  { cbn [fst snd]. split; [assumption|split; [assumption|reflexivity]]. }
+  assert (Hr : rec_sim rA rB) by (inversion Hrecs; assumption).
+  assert (Hrest : Forall2 rec_sim restA restB) by (inversion Hrecs; assumption).
+  pose proof Hr as (Hg & Hty & Hwin & Hfp & Hinv & Hstk & Hkids).
+  rewrite Hinv.
+  (* the first decision: same kind, same can_break *)
+  set (fbA := match fdA with FD_Break => _ | FD_Continue line_length can_break => _ end).
+  set (fbB := match fdB with FD_Break => _ | FD_Continue line_length can_break => _ end).
+  assert (Hfb : fst (fst fbA) = fst (fst fbB) /\ snd fbA = snd fbB).
+  { subst fbA fbB. destruct fdA as [|la ca]; destruct fdB as [|lb cb]; try contradiction; cbn [fd_sim] in Hfd.
+    - destruct (bid _); split; reflexivity.
+    - subst cb. split; reflexivity. }
+  destruct fbA as [[ibA lllA] bcbA]. destruct fbB as [[ibB lllB] bcbB]. cbn [fst snd] in Hfb. destruct Hfb as (<- & <-).
+  destruct (bid _ && negb ibA); [cbn [fst snd]; split; [assumption|split; [assumption|exact I]]|].
+  assert (HpenEq : decision_penalty_inf lvA rA 0 ibA = decision_penalty_inf lvB rB 0 ibA)
+    by (unfold decision_penalty_inf; rewrite Hlt, Hfp, Hstk; reflexivity).
+  rewrite HpenEq, HidxA, HidxB.
+  destruct (cls_sim rA rB [] 0 ws [TDec (if ibA then WBreak 0 else WContinue) lllA []] [TDec (if ibA then WBreak 0 else WContinue) lllB []]
+              (dt_upd 1 (fun s => mkSt (s_broken s) bcbA (s_child s) (s_oepl s) (s_bar s)) PLeaf) 1 lllA lllB 0 dA dB stA stB
+              Hr ltac:(rewrite ErA; left; reflexivity) ltac:(rewrite ErB; left; reflexivity) eq_refl HdA HdB HsA HsB) as (S1 & S2 & S3).
+  destruct (child_lines_solutions WA lvsA (solveA dA) stA i rA _ _ _ _ _ _ _ _) as [stA1 solsA].
+  destruct (child_lines_solutions WB lvsB (solveB dB) stB i rB _ _ _ _ _ _ _ _) as [stB1 solsB].
+  cbn [fst snd] in *.
+  assert (Hlast : ksim (match last_opt' solsA with Some k => k | None => [] end) (match last_opt' solsB with Some k => k | None => [] end)).
+  { unfold last_opt'. assert (Hrev : Forall2 ksim (rev solsA) (rev solsB)).
+    { clear -S3. induction S3 as [|x y ra rb Hxy Hr IHr]; [constructor|]. cbn [rev]. apply Forall2_app; [exact IHr|constructor; [exact Hxy|constructor]]. }
+    destruct Hrev; [reflexivity|assumption]. }
+  cbn [length]. rewrite (Forall2_len _ _ _ Hrest).
+  apply main_loop_inf_sim; [exact S1|exact S2|].
+  apply heap_extend_rel; [exact node_sim_ord| |apply heap_empty_rel].
+  assert (Hnd : node_sim (mkNode ws [TDec (if ibA then WBreak 0 else WContinue) lllA (match last_opt' solsA with Some k => k | None => [] end)] 1 restA
+                                 (dt_upd 1 (fun s => mkSt (s_broken s) bcbA (s_child s) (s_oepl s) (s_bar s)) PLeaf) (decision_penalty_inf lvB rB 0 ibA))
+                         (mkNode ws [TDec (if ibA then WBreak 0 else WContinue) lllB (match last_opt' solsB with Some k => k | None => [] end)] 1 restB
+                                 (dt_upd 1 (fun s => mkSt (s_broken s) bcbA (s_child s) (s_oepl s) (s_bar s)) PLeaf) (decision_penalty_inf lvB rB 0 ibA))).
+  { unfold node_sim. cbn [n_ws n_decs n_nli n_rest n_data n_pen map]. split; [reflexivity|]. split; [unfold erase_dec; cbn [td_dec td_kids]; rewrite Hlast; reflexivity|].
+    split; [reflexivity|]. split; [exact Hrest|]. split; [reflexivity|]. split; [reflexivity|].
+    split; intros x Hx; [rewrite ErA|rewrite ErB]; right; exact Hx. }
+  revert Hnd. generalize (match last_opt' solsA with Some k => k | None => [] end) (match last_opt' solsB with Some k => k | None => [] end).
+  intros kA kB Hnd. clear -S3 Hnd. induction S3; cbn [map]; [apply Forall2_nil|apply Forall2_cons; assumption].
+Qed.
 End Line.
 End Sim.
